@@ -248,6 +248,28 @@ func makeDocs(c *fw.Ctx, n int) (docs []docFile, bad []docFile) {
 			}
 		}
 	}
+	// damaged but readable documents: one of three fonts is a reference to an object the
+	// file does not have (also its ToUnicode stream or descriptor in other variants). How
+	// a reader degrades is its business, but it must degrade the same way every time
+	// (no dependence on map iteration order, on what ran before, or on timing).
+	for i := 0; i < c.N(8, 32); i++ {
+		rd := c.Rand("doc-damaged", i)
+		g := pdfw.GenDoc(rd, pdfw.DocOpts{MinPages: 1, MaxPages: 3, MaxLines: 6, MaxFonts: 3, TreeDepth: 1, Inherit: "leaf", NoEmptyPages: true,
+			FontKinds: []string{"tt-winansi-tounicode", "t1-macroman", "t1-std14-tounicode"}, ExactKinds: true})
+		lay := pdfw.BaselineLayout()
+		lay.ResIndirect = i%2 == 1
+		victim := fmt.Sprintf("font:%d", g.Doc.Fonts[i%3].ID)
+		if i%4 == 3 && g.Doc.Fonts[i%3].Kind != "t1-macroman" {
+			victim += ":tounicode"
+		}
+		lay.Omit = []string{victim}
+		b := pdfw.Build(rd.Int63(), lay, []*pdfw.Doc{g.Doc})
+		data, n := b.Bytes, 1
+		p := filepath.Join(dir, fmt.Sprintf("damaged%03d.pdf", i))
+		os.WriteFile(p, data, 0o644)
+		docs = append(docs, docFile{p, "pdf", fmt.Sprintf("pdf with %d dangling reference(s) to %s", n, victim)})
+		c.Seen("doc_kind", "pdf-damaged")
+	}
 	// inputs for histories: a PDF whose page content ends mid-operand, a truncated PDF, garbage, an empty file
 	r := c.Rand("bad")
 	mk := func(name string, data []byte, desc string) {
